@@ -249,6 +249,14 @@ for mod, names in ((C01, ('get_CpoR', 'get_HoRT', 'get_SoR')), (C07, ('get_Selem
                 u = u2
             UNITS.append(u)
 
+# the scheme's remap table is not written by a decomposition: frame obligations of the two functions that read it (units of C02)
+from . import C02 as _c02      # noqa: E402
+for _u in _c02.UNITS:
+    if 'remaps]' in _u.name:
+        if getattr(_u, 'world_factory', None) is None:
+            _u.world_factory = _c02.world
+        UNITS.append(_u)
+
 from . import standins
 STANDINS = [standins.c15_histories]
 
